@@ -3,7 +3,7 @@
    Generic in the worker state W, commands C, replies R; any number of workers; any parent program
    (list of send / recv instructions); EVERY schedule (list of atomic actions). *)
 From Coq Require Import List ZArith Bool.
-From SB3V Require Import Gen.Frag_Subproc Model.Script Model.VecEnv Model.Subproc Proofs.SubprocProofs.
+From SB3V Require Import Gen.Frag_Subproc Model.Script Model.VecEnv Model.Subproc Proofs.SubprocProofs Proofs.SubprocAttrProofs.
 Import ListNotations.
 Local Open Scope nat_scope.
 
@@ -159,6 +159,64 @@ Theorem C02_skeleton_programs : forall (C : Type) n targets (payload : cmdkind -
 Proof. exact (fun C n targets payload k => conj (skel_prog_all n targets payload k) (skel_prog_targets n targets payload k)). Qed.
 Print Assumptions C02_skeleton_programs.
 
+(* ---------- build round 5: has_attr as an atomic public call ---------- *)
+(* EVERY schedule: after any legal history (steps, resets, set_attr, env methods that create or delete the attribute, ...) has_attr(name)
+   receives one boolean per worker in index order, each the presence of the attribute in that sub-environment NOW; the public answer
+   (their conjunction) is the DummyVecEnv answer on the current sub-environment states; has_attr changes no state *)
+Theorem C02_has_attr_any_schedule : forall scs flags cs nm sched cfg',
+  let n := length scs in
+  let prog := calls_prog n (repeat None n) (repeat None n) (cs ++ [KaHasAttr nm]) in
+  let before := snd (dhistory sworker_step (winitw scs flags) (calls_methods n (repeat None n) (repeat None n) cs)) in
+  Forall (call_targets_ok n) cs ->
+  exec sworker_step (init prog (winitw scs flags)) sched = Some cfg' -> pc cfg' = [] ->
+  log cfg' = before ++ combine (seq 0 n) (map (fun w => ResBool (attr_present w nm)) (dummy_states scs flags cs)) /\
+  has_attr_answer (map snd (skipn (length before) (log cfg'))) = dummy_has_attr (dummy_states scs flags cs) nm /\
+  dummy_states scs flags (cs ++ [KaHasAttr nm]) = dummy_states scs flags cs.
+Proof. exact scripted_has_attr_any_schedule. Qed.
+Print Assumptions C02_has_attr_any_schedule.
+
+Theorem C02_has_attr_no_deadlock : forall scs flags cs nm sched cfg,
+  let n := length scs in
+  let prog := calls_prog n (repeat None n) (repeat None n) (cs ++ [KaHasAttr nm]) in
+  let before := snd (dhistory sworker_step (winitw scs flags) (calls_methods n (repeat None n) (repeat None n) cs)) in
+  Forall (call_targets_ok n) cs ->
+  exec sworker_step (init prog (winitw scs flags)) sched = Some cfg ->
+  exists sched' cfg', exec sworker_step cfg sched' = Some cfg' /\ pc cfg' = [] /\
+    has_attr_answer (map snd (skipn (length before) (log cfg'))) = dummy_has_attr (dummy_states scs flags cs) nm.
+Proof. exact scripted_has_attr_no_deadlock. Qed.
+Print Assumptions C02_has_attr_no_deadlock.
+
+(* the DummyVecEnv loop for a command that changes no state (has_attr, get_attr, env_is_wrapped): states untouched, one reply per in-range
+   target computed from the state at the time of the call - generic in the worker *)
+Theorem C02_read_only_call_sees_current_state : forall (W C R : Type) (wstep : W -> C -> W * R) (c : C) (ans : W -> R),
+  (forall w, wstep w c = (w, ans w)) ->
+  forall ts sts,
+    dloop wstep sts ts (fun _ => c)
+    = (sts, flat_map (fun t => match nth_error sts t with Some w => [ans w] | None => [] end) ts).
+Proof. exact (@dloop_read_only). Qed.
+Print Assumptions C02_read_only_call_sees_current_state.
+
+(* what the worker does with the new commands: the env method creates / deletes the attribute, set_attr creates it, has_attr, step and reset leave it *)
+Theorem C02_has_attr_tracks_changes : forall w,
+  attr_present (fst (sworker_step w (CmdDynMethod true))) 2 = true /\
+  attr_present (fst (sworker_step w (CmdDynMethod false))) 2 = false /\
+  attr_present (fst (sworker_step w CmdSetMade)) 3 = true /\
+  (forall nm, fst (sworker_step w (CmdHasAttr nm)) = w) /\
+  (forall a nm, attr_present (fst (sworker_step w (CmdStep a))) nm = attr_present w nm) /\
+  (forall s o nm, attr_present (fst (sworker_step w (CmdReset s o))) nm = attr_present w nm).
+Proof. exact has_attr_tracks_changes. Qed.
+Print Assumptions C02_has_attr_tracks_changes.
+
+(* regenerated: has_attr asks the workers of _get_target_remotes(indices=None), sends the caller's argument only, keeps no state and returns
+   all([...]) of the replies in target order; the worker looks the attribute up when it handles the command *)
+Theorem C02_fragment_has_attr :
+  skel_has_attr = model_skel_targets KHasAttr /\ skel_has_attr_payload = [PayCallArgs] /\ skel_has_attr_targets_ok = true /\
+  skel_has_attr_results_ordered = true /\ skel_has_attr_answer_is_all = true /\ worker_has_attr_reply_ok = true /\
+  skel_indices_none_is_range = true.
+Proof. exact frag_has_attr_public_answer. Qed.
+Print Assumptions C02_fragment_has_attr.
+
+
 (* ---------- non-vacuity ---------- *)
 Definition ex_scA : script := [mk_episode 10 1 [mk_sstep 11 (-3) false false 5; mk_sstep 12 4 true true 6]; mk_episode 20 2 [mk_sstep 21 1 false true 7]].
 Definition ex_scB : script := [mk_episode 30 3 [mk_sstep 31 0 true false 8]].
@@ -198,3 +256,18 @@ Example ex_async_interleaving_mixes_replies :
        (sends [0; 1] (fun i => CmdStep (Z.of_nat i)) ++ sends [1] (fun _ => CmdGetAttr) ++ recvs [1] ++ recvs [0; 1]))
   = Some [true; true; false].
 Proof. vm_compute. reflexivity. Qed.
+
+(* non-vacuity, and why a remembered answer cannot be right: on two sub-environments has_attr(dynamic attribute) is false, becomes true only when
+   the env method has created it in BOTH, false again after one deletes it; set_attr-created attribute likewise; under two schedules *)
+Definition ex_attr_calls : list call :=
+  [KaReset; KaHasAttr 2; KaDynMethod true [1]; KaHasAttr 2; KaDynMethod true [0]; KaHasAttr 2; KaStep [100; 101]%Z; KaDynMethod false [1]; KaHasAttr 2;
+   KaHasAttr 3; KaSetMade [1; 0]; KaHasAttr 3; KaHasAttr 0; KaHasAttr 1].
+Definition ex_answers (lg : list (nat * sres)) : list bool :=
+  flat_map (fun p => match p with (1, ResBool b) => [b] | _ => [] end) lg.
+Example ex_has_attr_answer_changes :
+  Forall (call_targets_ok 2) ex_attr_calls /\
+  fst (run_subproc_scripted [ex_scA; ex_scB] ex_attr_calls [3; 1; 4; 1; 5; 9; 2; 6; 5; 3; 5; 8; 9; 7; 9]) = 0 /\
+  snd (run_subproc_scripted [ex_scA; ex_scB] ex_attr_calls [3; 1; 4; 1; 5; 9; 2; 6; 5; 3; 5; 8; 9; 7; 9]) = run_dummy_scripted [ex_scA; ex_scB] [] ex_attr_calls /\
+  map (fun k => dummy_has_attr (dummy_states [ex_scA; ex_scB] [] (firstn k ex_attr_calls)) 2) [1; 3; 5; 8] = [false; false; true; false] /\
+  map (fun k => dummy_has_attr (dummy_states [ex_scA; ex_scB] [] (firstn k ex_attr_calls)) 3) [9; 11] = [false; true].
+Proof. split; [repeat constructor|]. vm_compute. repeat split; reflexivity. Qed.
